@@ -9,10 +9,14 @@ M2 (solving) — the side conditions of `cseTrees_preserves_sols_partial` **spli
   passes `_value_range(...)[0]`).  Not a statement about the algorithm.
 * `freshOK` — **false for the real code** (defect D19): a copied unknown axis is never called `cse.<k>` for a used `k`.
 * `rootDimsOK` — **false for the real code** (defect D20): a part replaced at root level has one dimension.
-* `overlapOK` — believed true for every well-formed input, **not proved**: parts replaced by the same `cse.<k>` have
-  the same shape (needs injectivity of `__str__`), parts replaced by different `cse.<k>` have disjoint unknown axes, a
-  copied unknown axis does not occur inside a replaced part (both need `usedOnlyInside` + longest match + injectivity
-  of `__str__`).
+* `copiedOK` — **false for the real code** (defect D21, found by this work package): an unknown axis that is copied
+  to the output does not occur inside a replaced part.  Fails when two slice candidates overlap in nodes without a
+  shared name (axes with a value: `a 1` and `1 d` in `a 1 d`).
+* `sharedOK` — parts replaced by the same `cse.<k>` have the same shape (not known to fail on inputs in which all unknown
+  axes of one name have one `min_value`; **not proved**, needs injectivity of `__str__`); parts replaced by different
+  `cse.<k>` have disjoint unknown axes (**false** for the real code, same defect D21: in
+  `(1 (f + 2 + a) () b d [1]) (() b d [1] () b d [1])` the candidate `1 (f + 2 + a) ()` consumes the `()`, then `b d`
+  becomes `cse.6` while `() b d` elsewhere becomes `cse.5`).
 
 What is *not* in this list any more because it is proved for every input (`Proofs/CseTreesDischarge.lean`):
 the filter facts (`FiltOK`, already in work package cse), "an unknown value has an unbounded range"
@@ -40,9 +44,14 @@ def freshPair : Ev → Ev → Bool
   | .surv n _, .used k _ _ _ => n != cseName k
   | _, _ => true
 
-/-- the conditions on pairs of events that are believed to hold for every input but are not proved -/
-def overlapPair : Ev → Ev → Bool
+/-- D21: an unknown axis that is copied to the output does not occur inside a replaced part -/
+def copiedPair : Ev → Ev → Bool
   | .surv n _, .used _ e _ _ => !(freeNamesB e).contains n
+  | _, _ => true
+
+/-- the conditions on pairs of replaced parts: same `cse.<k>` ⇒ same shape (unproved), different `cse.<k>` ⇒ disjoint
+unknown axes (false for overlapping candidates: D21) -/
+def sharedPair : Ev → Ev → Bool
   | .used k e _ _, .used k' e' _ _ =>
     if cseName k == cseName k' then sameShape e e' else disjointNames (freeNamesB e) (freeNamesB e')
   | _, _ => true
@@ -51,10 +60,12 @@ def allPairs (f : Ev → Ev → Bool) (evs : List Ev) : Bool := evs.all (fun a =
 
 def freshOK (evs : List Ev) : Bool := allPairs freshPair evs
 def rootDimsOK (evs : List Ev) : Bool := evs.all rootDimOK
-def overlapOK (evs : List Ev) : Bool := allPairs overlapPair evs
+def copiedOK (evs : List Ev) : Bool := allPairs copiedPair evs
+def sharedOK (evs : List Ev) : Bool := allPairs sharedPair evs
 
 /-- The reduced side conditions: `cseCheckReduced → cseCheck` is proved (`cseCheck_of_reduced`). -/
 def cseCheckReduced (opts : Opts) (rs : List (Option VExpr)) : Bool :=
-  inputOK rs && freshOK (cseEvents opts rs) && rootDimsOK (cseEvents opts rs) && overlapOK (cseEvents opts rs)
+  inputOK rs && freshOK (cseEvents opts rs) && rootDimsOK (cseEvents opts rs) && copiedOK (cseEvents opts rs) &&
+    sharedOK (cseEvents opts rs)
 
 end Einx.Solve.CseT
